@@ -2,7 +2,7 @@
    Every theorem quantifies over ALL schedules (any list of thread ids), any number of workers with any scripts, and
    (except the instance) over EVERY program set that passes the decidable discipline check. *)
 From PG Require Import Common.Tactics Model.Sched Model.SchedDisc Gen.SchedProg
-  Proofs.SchedMutex Proofs.SchedSound Proofs.SchedTheorems Proofs.SchedInstance.
+  Proofs.SchedMutex Proofs.SchedSound Proofs.SchedSound2 Proofs.SchedSound3 Proofs.SchedTheorems Proofs.SchedInstance.
 
 (* no lock ever has two holders: for every program set whatsoever *)
 Theorem Sched_mutex : forall ps c ws sched t1 t2 th1 th2 k,
@@ -38,6 +38,37 @@ Theorem C16_bookkeeping_counters : forall ps c, disciplined ps = true -> forall 
   (s_comp (study0_of st) + s_pend (study0_of st))%Z = Z.of_nat (length (trials_of st)).
 Proof. exact bookkeeping_counters. Qed.
 Print Assumptions C16_bookkeeping_counters.
+
+Theorem C16_same_group_same_trial : forall ps c, disciplined ps = true -> forall ws sched,
+  let st := run ps c (init_state c ws) sched in
+  (forall i j xi xj, nth_error (trials_of st) i = Some xi -> nth_error (trials_of st) j = Some xj ->
+     t_done xi = false -> t_done xj = false -> t_group xi = t_group xj -> i = j) /\
+  (forall t th i, nth_error (snd st) t = Some th -> r_cur th = Some i ->
+     exists x, nth_error (trials_of st) i = Some x /\ t_group x = r_group th).
+Proof. exact same_group_same_trial. Qed.
+Print Assumptions C16_same_group_same_trial.
+
+Theorem C16_best_trial_max : forall ps c, disciplined ps = true -> forall ws sched,
+  let st := run ps c (init_state c ws) sched in
+  (forall b, s_best (study0_of st) = Some b ->
+     exists xb rb, nth_error (trials_of st) b = Some xb /\ t_done xb = true /\ t_inf xb = false /\ t_final xb = Some rb) /\
+  (finished (snd st) = true -> forall i x r, nth_error (trials_of st) i = Some x -> t_done x = true -> t_inf x = false -> t_final x = Some r ->
+     exists b xb rb, s_best (study0_of st) = Some b /\ nth_error (trials_of st) b = Some xb /\ t_final xb = Some rb /\ (r <= rb)%Z).
+Proof. exact best_trial_max. Qed.
+Print Assumptions C16_best_trial_max.
+
+Theorem C16_single_study : forall ps c, disciplined ps = true -> forall ws sched,
+  nstudies (fst (run ps c (init_state c ws) sched)) <= 1.
+Proof. exact single_study. Qed.
+Print Assumptions C16_single_study.
+
+Theorem C16_reports_exact : forall ps c, disciplined ps = true -> forall ws sched,
+  let st := run ps c (init_state c ws) sched in
+  NoDup (a_fed (alg (fst st))) /\
+  (finished (snd st) = true -> forall i x, nth_error (trials_of st) i = Some x ->
+     (In (0, t_id x) (a_fed (alg (fst st))) <-> (t_done x = true /\ t_inf x = false))).
+Proof. exact reports_exact. Qed.
+Print Assumptions C16_reports_exact.
 
 (* re-checked on every run against the programs regenerated from the current source *)
 Theorem C16_instance : disciplined Gen.SchedProg.progs = true.
